@@ -113,6 +113,53 @@ class Sink:
             raise AnalysisBroken("anchor function(s) %s of RotatingFileSinkPrivate no longer resolve (by name or by role)" % missing)
         return out
 
+    def fields_for_count(self, N):
+        """{qualified field name: value} of the private object's integer / enum / bool members after construction with
+        maxFileCount = N: the constructor's member initialisers evaluated by cases (engine/conc.py); members whose initialiser does not
+        depend on the count only, or is outside the evaluable fragment, are absent.  m_maxFileCount itself is always present."""
+        from engine.conc import Conc, Unknown
+        out = {RP + "::m_maxFileCount": N}
+        cts = [f for f in self.F.fn_all(RP + "::RotatingFileSinkPrivate") if f.d.get("kind") == "ctor" and not f.d.get("copyctor") and not f.d.get("movector")]
+        if len(cts) != 1:
+            return out
+        ct = cts[0]
+        cnt = [p_ for p_ in ct.params if "count" in (p_.get("name") or "").lower()]
+        if len(cnt) != 1:
+            return out
+        env = {"__fn__": ct, cnt[0]["decl"]: N}
+        for p_ in ct.params:
+            if p_["decl"] != cnt[0]["decl"]:
+                env["__unk__:%s" % p_["decl"]] = True
+        for i in ct.inits:
+            if not i.get("member") or not isinstance(i.get("e"), dict):
+                continue
+            if not any(x.get("k") == "ref" and x.get("decl") == cnt[0]["decl"] for x in walk(i["e"])):
+                continue
+            try:
+                v = Conc(self.F).eval(i["e"], dict(env))
+            except Unknown:
+                continue
+            if isinstance(v, bool):
+                v = int(v)
+            if isinstance(v, int):
+                out[strip_tmpl(i["member"])] = v
+        return out
+
+    def count_leaf(self, N, extra=None):
+        """leaf for numeric_atom: the value of any member that the constructor derives from maxFileCount = N"""
+        tab = self.fields_for_count(N)
+
+        def leaf(n):
+            if extra is not None:
+                v = extra(n)
+                if v is not None:
+                    return v
+            x = skip_copies(n) if isinstance(n, dict) else None
+            if isinstance(x, dict) and x.get("k") == "member" and x.get("dk") == "field" and skip_copies(x.get("base") or {}).get("k") == "this":
+                return tab.get(strip_tmpl(x.get("name") or ""))
+            return None
+        return leaf
+
     def calls_to(self, fn, role):
         """calls in fn of the function playing `role` (resolved by identity, not by spelling)"""
         t = self.m.get(role)
